@@ -54,19 +54,20 @@ func usage() {
 
 // Cfg is a runtime configuration of one execution.
 type Cfg struct {
-	Buf      int    `json:"bufsize"`
-	Procs    int    `json:"gomaxprocs"`
-	Sched    string `json:"sched,omitempty"`
-	MaxTasks int    `json:"max_tasks,omitempty"`
-	Crash    string `json:"crash,omitempty"`
-	Race     bool   `json:"race,omitempty"`
-	SoftSec  int    `json:"soft_sec,omitempty"`
-	NoHooks  bool   `json:"passive_hooks,omitempty"`
-	WdRel    string `json:"working_directory,omitempty"`  // working directory below the case root (default "wd"), e.g. one with blanks in its name
-	SlowErr  bool   `json:"slow_stderr_reader,omitempty"` // the subject's stderr is a pipe whose reader takes 128 kB every 10 ms
-	NoFile   int    `json:"open_files_limit,omitempty"`   // the subject runs under "ulimit -n <limit>"
-	Debug    bool   `json:"debug_log,omitempty"`          // the library logs at its DEBUG level (InitLogDebug before the workflow is made)
-	Quiet    bool   `json:"quiet_log,omitempty"`          // the library logs errors only (its logger's mutex is one more synchronisation the race detector sees)
+	Buf        int    `json:"bufsize"`
+	Procs      int    `json:"gomaxprocs"`
+	Sched      string `json:"sched,omitempty"`
+	MaxTasks   int    `json:"max_tasks,omitempty"`
+	Crash      string `json:"crash,omitempty"`
+	Race       bool   `json:"race,omitempty"`
+	SoftSec    int    `json:"soft_sec,omitempty"`
+	NoHooks    bool   `json:"passive_hooks,omitempty"`
+	WdRel      string `json:"working_directory,omitempty"`  // working directory below the case root (default "wd"), e.g. one with blanks in its name
+	SlowErr    bool   `json:"slow_stderr_reader,omitempty"` // the subject's stderr is a pipe whose reader takes 128 kB every 10 ms
+	StraceKill string `json:"strace_kill,omitempty"`        // "<syscalls>:<n>": the subject runs under strace, which kills whichever thread is about to make its n-th call of one of these syscalls
+	NoFile     int    `json:"open_files_limit,omitempty"`   // the subject runs under "ulimit -n <limit>"
+	Debug      bool   `json:"debug_log,omitempty"`          // the library logs at its DEBUG level (InitLogDebug before the workflow is made)
+	Quiet      bool   `json:"quiet_log,omitempty"`          // the library logs errors only (its logger's mutex is one more synchronisation the race detector sees)
 }
 
 func (c Cfg) env() map[string]string {
@@ -116,12 +117,18 @@ func execSpec(c *chk.Ctx, root string, s *spec.Spec, cfg Cfg, behav vproto.Behav
 		soft = time.Duration(cfg.SoftSec) * time.Second
 	}
 	cs := &run.Case{Root: root, Bin: bin, Spec: sp, Env: env, Behav: behav, KeepWd: keepWd, RunNo: runNo, Soft: soft, Hard: hard, SlowStderr: cfg.SlowErr, WdRel: cfg.WdRel}
+	if cfg.StraceKill != "" {
+		k := strings.LastIndex(cfg.StraceKill, ":")
+		cs.Wrap = []string{"strace", "-f", "-qq", "-e", "trace=%file", "-o", filepath.Join(root, "meta", fmt.Sprintf("strace.%d.log", runNo)),
+			"-e", fmt.Sprintf("inject=%s:signal=SIGKILL:when=%s", cfg.StraceKill[:k], cfg.StraceKill[k+1:])}
+		cs.Soft, cs.Hard = 60*time.Second, 150*time.Second
+	}
 	if cfg.NoFile > 0 {
 		cs.Wrap = []string{"/bin/bash", "-c", fmt.Sprintf("ulimit -n %d; exec \"$@\"", cfg.NoFile), "wrap"}
 	}
 	c.Eval(1)
 	res := cs.Run()
-	if res.Signal == "killed" && res.Hang == "" && cfg.Crash == "" && !behavKillsGroup(behav) {
+	if res.Signal == "killed" && res.Hang == "" && cfg.Crash == "" && cfg.StraceKill == "" && !behavKillsGroup(behav) {
 		// The subject died from a SIGKILL that this experiment did not send (no crash point, no group kill by a
 		// command) and that the library cannot send (it contains no kill). Seen once on a heavily loaded machine;
 		// the sender could not be identified. Such a run says nothing about the property: inconclusive.
